@@ -25,10 +25,10 @@ ASSUME Reflexive == \A a \in U : JCmp(a, a) = 0
 ASSUME EquivIsEq == \A a, b \in U : Comparable(a, b) => ((JCmp(a, b) = 0) <=> JEq(a, b))
 ASSUME Transitive == \A a, b, c \in U : Comparable(a, b) /\ Comparable(b, c) /\ Comparable(a, c) /\ Le(a, b) /\ Le(b, c) => Le(a, c)
 ASSUME TypeRank == \A a, b \in U : Rank(a) < Rank(b) => JCmp(a, b) = -1
-ASSUME ObjectsOnlyAmongThemselves == \A a, b \in U : ~Comparable(a, b) => a.t = "obj" /\ b.t = "obj" /\ ~JEq(a, b)
+ASSUME ObjectsOnlyAmongThemselves == \A a, b \in U : ~Comparable(a, b) => a.t = "obj" /\ b.t = "obj" /\ ~JSame(a, b)
 ASSUME Samples == /\ JCmp(Bool(FALSE), Bool(TRUE)) = -1 /\ JCmp(S(<<49, 48>>), S(<<57>>)) = -1 /\ JCmp(I(10), I(9)) = 1
                   /\ JCmp(Arr(<<I(2)>>), Arr(<<I(1), I(2)>>)) = 1 /\ JCmp(Arr(<<I(1)>>), Arr(<<I(1), I(2)>>)) = -1
-                  /\ JCmp(Obj(<<<<97>>, <<98>>>>, <<I(1), I(2)>>), Obj(<<<<98>>, <<97>>>>, <<I(2), I(1)>>)) = 0
+                  /\ JCmp(Obj(<<<<97>>, <<98>>>>, <<I(1), I(2)>>), Obj(<<<<98>>, <<97>>>>, <<I(2), I(1)>>)) = 2     \* equal under =, unordered
 VARIABLE x
 Init == x = 0
 Next == x < 1 /\ x' = x + 1
